@@ -481,6 +481,12 @@ fn pool_cmd(args: &[String]) {
             }
         }
     }
+    // two async dispatchers sharing pools of 1 and of 2 threads (stage width 1)
+    for p in [1usize, 2] {
+        k += 1;
+        if k % sn != si { continue; }
+        emit("asyncpair", 1, p, reps, 5000, &mut out);
+    }
     // the precondition is needed: one thread fewer than groups cannot complete the rendezvous (short limit)
     for w in [2u32, 4] {
         k += 1;
